@@ -30,7 +30,9 @@ class Call(Expression):
 
         _ParseFunction = Code('_ParseFunction')
 
-        if flags.uses_context and not self.func.is_local:
+        is_super = self.func.resolved.startswith('_super_ctx.')
+
+        if flags.uses_context and not self.func.is_local and not is_super:
             resolved_func = f'_ctx.{self.func.resolved}'
         else:
             resolved_func = self.func.resolved
